@@ -659,3 +659,14 @@ SPECS["C02"]["level_text"] += "; PerformanceEntry.files (1, 2 patches): one prog
 SPECS["C02"]["not_covered"] = ["record addressing lambdas of the *EntryConstruct declarations beyond the address obligations", "get_file / _get_*_params glue beyond the contracts listed",
                                "that ONE `_seen_sample_indices` set serves all patches of a performance (end-to-end monitor: a sample reached through two patches)"]
 SPECS["C06"]["not_covered"] = ["uniqueness for directories of more than 4 entries as a contract (needs a quantified invariant over a symbolic dictionary)", "os.path.join / makedirs (assumed)"]
+
+# C01 / C02 / C03 / C05 / C06: one directory level handed to the export manager; the manager's own batch emptied
+_LVL = [f"smpl_extract.structural:Traversable.export_samples[{k}]" for k in ("samples=0", "samples=1", "samples=2", "directories=1", "directories=2")]
+for _p in ("C01", "C02", "C03", "C05"):
+    SPECS[_p]["contracts"] += _LVL
+for _p in ("C01", "C05", "C06"):
+    SPECS[_p]["contracts"] += ["smpl_extract.structural:ExportManager.export_samples[n=2,one-routine]"]
+for _p in ("C01", "C02"):
+    SPECS[_p]["level_text"] += ("; Traversable.export_samples: a level of sample children is announced, EVERY child's generalized sample is added in directory order and the level is finished "
+                                "once with exactly that batch (0, 1, 2 children; a stale entry from an earlier level is discarded); a level of sub-directories exports each of them; the manager's "
+                                "own batch is emptied even when a routine returned a new list")
